@@ -53,13 +53,13 @@ CHECKS['C10'] = ('exploration',
 
 CHECKS['C07'] = ('exploration',
     'CrossHair/z3 path exploration over boolean selectors (template, history, override set, output mask); the real ExcelModel runs on every explored path and is compared with a fresh model / with the same value stored as a constant',
-    'Bounded exhaustive exploration driven by the symbolic executor: for 3 template families, every history of 2 (quick) / 3 (thorough) operations out of 12 (calculate with cell / name / range / formula overrides, outputs restriction, compile+call, to_dict, write, deepcopy) followed by each of 13 override sets gives exactly the values a fresh model gives; supplied (A1, A2) values from an 8x8 pool behave as stored constants; supplying through the defined name or a multi-cell range equals supplying the cells; an overridden formula cell keeps its value; all 127 output subsets return unchanged values.',
+    'Bounded exhaustive exploration driven by the symbolic executor: for 3 template families, every history of 2 (quick) / 3 (thorough) operations out of 14 (calculate with cell / name / range / formula overrides, outputs restriction, compile+call, to_dict, write, deepcopy) followed by each of 15 override sets (cells, defined name, column range, 2x2 block, formula cell) gives exactly the values a fresh model gives; supplied (A1, A2) values from an 8x8 pool behave as stored constants; supplying through the defined name or a multi-cell range equals supplying the cells; an overridden formula cell keeps its value; all 127 output subsets return unchanged values.',
     'Selectors only - no symbolic cell values (numpy/schedula cannot carry proxies): exploration, not proof; histories <= 3 (statement: 8); dictionary-built models of three families. ' + TB,
     'DESIGN.md §3 C07')
 
 CHECKS['C08'] = ('exploration',
     'CrossHair/z3 path exploration over boolean selectors (template, input list, output list, formula, argument values); the real compile() and calculate() run on every explored path and are compared',
-    'Bounded exhaustive exploration driven by the symbolic executor: for 3 template families x 8 input node lists (cells, defined name, formula cell) x 5 output lists x argument values from an 8-entry pool, ExcelModel.compile(inputs, outputs)(*vals) equals calculate(inputs=..., outputs=...) on two successive calls; 12 single formulas compiled alone take their arguments in inputs-mapping order and equal the formula with the 8^3 argument triples written in as literals.',
+    'Bounded exhaustive exploration driven by the symbolic executor: for 3 template families x 12 input node lists (cells, defined name, formula cell, multi-cell range, 2x2 block) x 5 output lists x argument values from an 8-entry pool, ExcelModel.compile(inputs, outputs)(*vals) equals calculate(inputs=..., outputs=...) on two successive calls; 12 single formulas compiled alone take their arguments in inputs-mapping order and equal the formula with the 8^3 argument triples written in as literals.',
     'Selectors only - pool values, not every argument tuple: exploration, not proof. ' + TB,
     'DESIGN.md §3 C08')
 
@@ -98,6 +98,12 @@ CHECKS['C13'] = ('model_checking',
     'Bounded symbolic checking: for every pair of integer bounds below 2^20 (quick) / 2^30 and EVERY double u in [0,1) returned by the random source, RANDBETWEEN returns an integer within its bounds (#NUM! when top < bottom); the impure wrapper yields no value while compiling and otherwise calls through (symbolic flag and arguments). By selectors: 16 formulas with NOW / TODAY / RAND / RANDBETWEEN nested at several depths x 7 ways of obtaining the executable model (loaded, compiled to a function, deep-copied, re-imported from JSON, single compiled formula, overridden volatile cell, recalculation with an unrelated override): every call evaluates afresh under an advancing harness clock and all cells referring to the volatile cell see one value.',
     'Clock and random source are harness stubs with their documented contracts; workbook level is selector exploration. ' + TB,
     'DESIGN.md §3 C13')
+
+CHECKS['C09'] = ('exploration',
+    'CrossHair/z3 path exploration over constant / sheet-name / model / formula-tree selectors; every explored path runs the real to_dict -> JSON text -> from_dict -> to_dict chain',
+    'Bounded exhaustive exploration driven by the symbolic executor: all 259 text cells of length <= 3 over {= \" a 1 blank #}, 16 typed constants, three model families x 8x8 constants x 8 sheet names that need quoting (hyphen, blank, apostrophe, leading digit, !, second workbook), and five formula shapes x all 1728 operator triples: the re-imported model computes identical values for every node, the second and third exports equal the first, and a formula\'s exported text parses back to itself.',
+    'Selectors only; dictionary-built models (text cells created as the reader creates them). ' + TB,
+    'DESIGN.md §3 C09')
 
 NA = {
     'C15': 'the dependency closure is computed over openpyxl worksheets read from .xlsx files while mutating the schedula dispatcher; neither can be given a symbolic state (DESIGN §4)',
